@@ -275,6 +275,79 @@ fn check_pair(input: &(String, String), case: &mut Case) -> Result<(), Fail> {
     Ok(())
 }
 
+/// (backing text, start and end of the first slice, start and end of the second slice)
+type Shared = (String, u8, u8, u8, u8);
+
+/// Two names cut out of ONE backing text (overlapping slices, cuts in the middle of labels): the statement
+/// speaks of labels, so where the text of a name is stored must not matter. Texts over {a, b, .} up to length
+/// 6 (7 thorough), every ordered pair of slices that are names by the rule of the statement.
+fn enum_shared(t: Tier, shard: usize, n: usize, f: &mut dyn FnMut(Shared) -> bool) {
+    let maxlen = if t == Tier::Quick { 6 } else { 7 };
+    let mut texts: Vec<String> = vec![String::new()];
+    let mut frontier = vec![String::new()];
+    for _ in 0..maxlen {
+        let mut next = Vec::new();
+        for b in &frontier {
+            for c in ["a", "b", "."] {
+                next.push(format!("{}{}", b, c));
+            }
+        }
+        texts.extend(next.iter().cloned());
+        frontier = next;
+    }
+    let mut i = 0;
+    for t in texts.iter().filter(|t| t.len() >= 3) {
+        let l = t.len();
+        let ranges: Vec<(usize, usize)> = (0..l).flat_map(|a| (a + 1..=l).map(move |b| (a, b))).filter(|(a, b)| name_ok(&t[*a..*b]) && !pieces(&t[*a..*b]).is_empty()).collect();
+        for (a, b) in &ranges {
+            for (c, d) in &ranges {
+                i += 1;
+                if mine(i, shard, n) && !f((t.clone(), *a as u8, *b as u8, *c as u8, *d as u8)) {
+                    return;
+                }
+            }
+        }
+    }
+}
+
+fn check_shared(input: &Shared, case: &mut Case) -> Result<(), Fail> {
+    let (t, a, b, c, d) = input;
+    let xs = &t[*a as usize..*b as usize];
+    let ys = &t[*c as usize..*d as usize];
+    let xl = pieces(xs);
+    let yl = pieces(ys);
+    let x = lib("Name::new", || Name::new(xs))?.map_err(|e| Fail::new("c17:rejects-valid", format!("{:?}: {:?}", xs, e)))?;
+    let y = lib("Name::new", || Name::new(ys))?.map_err(|e| Fail::new("c17:rejects-valid", format!("{:?}: {:?}", ys, e)))?;
+    let want = xl.len() > yl.len() && xl[xl.len() - yl.len()..] == yl[..];
+    // a label of one name starting at the same byte as a label of the other, with another length
+    let starts = |s: usize, ps: &[&str], whole: &str| -> Vec<(usize, usize)> { ps.iter().map(|p| (s + (p.as_ptr() as usize - whole.as_ptr() as usize), p.len())).collect() };
+    let sx = starts(*a as usize, &xl, xs);
+    let sy = starts(*c as usize, &yl, ys);
+    let tricky = sx.iter().any(|(p, l)| sy.iter().any(|(q, m)| p == q && l != m));
+    case.nontrivial = tricky;
+    case.class(if tricky { "same-start-other-length" } else { "plain" });
+    case.class(if want { "subdomain" } else { "not-subdomain" });
+    let what = format!("slices {:?} and {:?} of the text {:?}", xs, ys, t);
+    let got = lib("is_subdomain_of", || x.is_subdomain_of(&y))?;
+    ensure!(got == want, "c17:is-subdomain", "{}: is_subdomain_of = {}", what, got);
+    let w = lib("without", || x.without(&y).map(|n| oname(&n)))?;
+    if want {
+        let lead: Vec<&str> = xl[..xl.len() - yl.len()].to_vec();
+        match w {
+            Some(n) => ensure!(n.0.iter().map(|l| String::from_utf8_lossy(l).to_string()).collect::<Vec<_>>() == lead, "c17:without", "{}: without = {:?}", what, n),
+            None => return Err(Fail::new("c17:without", format!("{}: without = None", what))),
+        }
+    } else {
+        ensure!(w.is_none(), "c17:without", "{}: without = {:?}", what, w);
+    }
+    // "re-creating it gives an equal name": equality is equality of labels, so it must also tell these two apart
+    let eq = lib("==", || x == y)?;
+    ensure!(eq == (xl == yl), "c17:equality", "{}: == is {}", what, eq);
+    let again = lib("Name::new(to_string)", || Name::new(&x.to_string()).map(|r| r == x))?;
+    ensure!(matches!(again, Ok(true)), "c17:recreate", "{}: the first, displayed and re-created: {:?}", what, again);
+    Ok(())
+}
+
 fn enum_local(_t: Tier, shard: usize, n: usize, f: &mut dyn FnMut(String) -> bool) {
     let mut lasts: Vec<String> = Vec::new();
     for mask in 0..32u8 {
@@ -320,7 +393,7 @@ fn check_local(s: &String, case: &mut Case) -> Result<(), Fail> {
 pub fn def() -> CheckDef {
     CheckDef {
         id: "C17",
-        rule: "bounded-exhaustive: all strings of length <= 6 (7 thorough) over {a,A,1,-,_,.,\\,é}; label lengths 0..=70 alone/inside a name/with edge hyphens; names of wire length 240..=260 from several label sizes; the string literals of the sources under test alone and glued to 12 kinds of neighbours; every character U+0080..U+07FF (and samples beyond) at the first / middle / last position of a label; all ordered pairs of the 31 names of <= 4 labels over {a,b} and the 78 names of <= 3 labels over {a,b,ab,ba} that hold a two-character label (109x109); 32 case variants of 'local' + near misses at every position. Non-trivial = at least one non-empty label (pairs: both non-root)",
+        rule: "bounded-exhaustive: all strings of length <= 6 (7 thorough) over {a,A,1,-,_,.,\\,é}; label lengths 0..=70 alone/inside a name/with edge hyphens; names of wire length 240..=260 from several label sizes; the string literals of the sources under test alone and glued to 12 kinds of neighbours; every character U+0080..U+07FF (and samples beyond) at the first / middle / last position of a label; all ordered pairs of the 31 names of <= 4 labels over {a,b} and the 78 names of <= 3 labels over {a,b,ab,ba} that hold a two-character label (109x109); every ordered pair of name-shaped slices of one backing text over {a,b,.} of length <= 6 (7 thorough), so that labels of the two names overlap in memory (section `shared-text`); 32 case variants of 'local' + near misses at every position. Non-trivial = at least one non-empty label (pairs: both non-root)",
         assumptions: vec!["'letter' and 'digit' in the statement mean ASCII letters and digits (host name syntax)"],
         sections: vec![
             Box::new(EnumSection { name: "strings", rule: "all short strings", enumerate: enum_strings, check: check_text, exhaustive: true }),
@@ -328,6 +401,7 @@ pub fn def() -> CheckDef {
             Box::new(EnumSection { name: "non-ascii", rule: "non-ASCII characters at every position of a label", enumerate: enum_non_ascii, check: check_text, exhaustive: true }),
             Box::new(EnumSection { name: "dictionary", rule: "string literals of the sources, alone and glued to neighbours", enumerate: enum_dict, check: check_text, exhaustive: false }),
             Box::new(EnumSection { name: "suffix", rule: "all ordered pairs of small names", enumerate: enum_pairs, check: check_pair, exhaustive: true }),
+            Box::new(EnumSection { name: "shared-text", rule: "two names sliced from one backing text", enumerate: enum_shared, check: check_shared, exhaustive: true }),
             Box::new(EnumSection { name: "link-local", rule: "case variants and near misses of 'local'", enumerate: enum_local, check: check_local, exhaustive: true }),
         ],
     }
